@@ -154,9 +154,12 @@ func (r Stack) SetLogLevel(l ...any) Stack {
 LogLevels returns the string representation of a comma-delimited list
 of all active [LogLevel] values within the receiver.
 */
-func (r Stack) LogLevels() string {
-	cfg, _ := r.config()
-	return cfg.log.lvl.String()
+func (r Stack) LogLevels() (l string) {
+	if r.IsInit() {
+		cfg, _ := r.config()
+		l = cfg.log.lvl.String()
+	}
+	return
 }
 
 /*
@@ -1126,8 +1129,11 @@ func assertListDelimiter(x any) (v string) {
 Delimiter returns the delimiter string value currently set
 within the receiver instance.
 */
-func (r Stack) Delimiter() string {
-	return r.stack.getListDelimiter()
+func (r Stack) Delimiter() (delim string) {
+	if r.IsInit() {
+		delim = r.stack.getListDelimiter()
+	}
+	return
 }
 
 /*
